@@ -119,6 +119,28 @@ pub fn run(ctx: &mut Ctx) {
         if !(worst <= 0.01) {
             ctx.violation("postfilter-law-mismatch", descr().set("worst_error_nepers", worst).set("fitted_c0", c0p));
         }
+        // (a') differential form: ln|H_beta| - ln|H_0| = beta * sum_{m>=2} c_m cos(m w~) + const.
+        // Both responses pass through the same Pade filter, so its error largely cancels and
+        // a much tighter bound is meaningful (observed on the clean tree: < 3e-4).
+        if s0.p == sb.p {
+            let diff: Vec<f64> = hs
+                .iter()
+                .zip(&ws)
+                .map(|(j, w)| {
+                    let mut z = vec![0.0; order];
+                    for m in 2..order {
+                        z[m] = beta * c[m];
+                    }
+                    (sb.log_mag(*j) - s0.log_mag(*j)) - mcep_logspec(&z, alpha, *w)
+                })
+                .collect();
+            let mean = diff.iter().sum::<f64>() / diff.len() as f64;
+            let worst_d = diff.iter().fold(0.0f64, |m, r| m.max((r - mean).abs()));
+            ctx.max("worst_differential_law_error_nepers", worst_d);
+            if !(worst_d <= 0.003) {
+                ctx.violation("postfilter-differential-law-mismatch", descr().set("worst_error_nepers", worst_d));
+            }
+        }
         // (b) recovered cepstrum (least squares), reported and checked loosely
         let basis: Vec<Vec<f64>> = ws
             .iter()
